@@ -478,6 +478,18 @@ EXTRA_STATEMENTS = [
 ]
 
 
+# statements that exercise Generator.preprocess (nested CTEs moved to the top level, also with clashing names; bare
+# boolean operands for the ENSURE_BOOLS targets): diagnostics issued while preprocessing happen before generate() resets
+# its message list
+GEN_EXTRA = [
+    "SELECT * FROM (WITH t AS (SELECT 1 AS a) SELECT a FROM t) AS x JOIN (WITH t AS (SELECT 2 AS a) SELECT a FROM t) AS y ON x.a = y.a",
+    "WITH c AS (SELECT 1 AS a) SELECT * FROM (WITH c AS (SELECT 2 AS a), d AS (SELECT a FROM c) SELECT a FROM d) AS z",
+    "SELECT a FROM (WITH u AS (SELECT a FROM t) SELECT a FROM u) AS s WHERE a IN (WITH v AS (SELECT 1 AS a) SELECT a FROM v)",
+    "SELECT a FROM t WHERE a AND NOT b OR (SELECT c FROM u)",
+    "SELECT CASE WHEN a THEN 1 ELSE 0 END, IF(b, 1, 2) FROM t WHERE x",
+]
+
+
 def _broken(s):
     """a fixed few syntactic breakages of s (pure functions of the token list; not selected by sqlglot's behaviour)"""
     out = []
@@ -539,7 +551,7 @@ def items_for(tier):
     stats["mutations"] = len(b)
     stats["keyword_soups"] = len(sp)
     stats["scripts"] = len(sc)
-    g = [("g", s, a_, tuple(gtgt)) for s in corpus.STATEMENTS for a_ in gsrc]
+    g = [("g", s, a_, tuple(gtgt)) for s in corpus.STATEMENTS + GEN_EXTRA for a_ in gsrc]
     stats["gen_statement_x_source"] = len(g)
     stats["gen_targets"] = len(gtgt)
     r = [("r", a_, b_) for a_ in (["", "presto", "duckdb"] if tier == "quick" else gsrc) for b_ in gtgt]
